@@ -386,6 +386,62 @@ def check_constrained_inner(run, it):
     it.explore(h, "constrained.inner")
 
 
+def check_substep_errors_propagate(run, it):
+    """`or fails loudly`: an integrator error raised by any sub-step of `_step` leaves `_step` as that very exception and no
+    further sub-step runs afterwards -- in particular `_step` never handles a failed solve by switching to another map (which
+    map is applied would then depend on where the solver happens to converge, and the reverse step need not make the same
+    choice).  The sub-steps are callee contracts that may raise at any call (decision explored for every call position)."""
+    from ..pyvc import Native
+    cases = [("ImplicitLeapfrogIntegrator", list(c06.LEAP_LABEL), {}), ("ImplicitMidpointIntegrator", ["_step_a_fwd", "_step_a_adj"], {}),
+             ("ConstrainedLeapfrogIntegrator", ["_step_a", "_step_b"], {"constrained": True})]
+    errs = ["ConvergenceError", "NonReversibleStepError"]
+    MAXC = 8
+
+    def h(ctx):
+        cls, names, wkw = cases[ctx.choose(len(cases), "class")]
+        err = errs[ctx.choose(len(errs), "error")]
+        fail_at = ctx.choose(MAXC, "failing-call")
+        w = World(it, ctx, **wkw)
+        kw = {"step_size": positive_step(ctx)}
+        if wkw:
+            kw.update(projection_solver=w.projection_solver_stub(), n_inner_step=1, reverse_check_norm=w.norm_stub(), reverse_check_tol=z3.Real("tol"))
+        integ = w.new(cls, **kw)
+        st = w.make_state()
+        t = z3.Real("t")
+        calls, box = [], {}
+
+        def rec(ex, self_, state, tt, _n=None):
+            calls.append(_n)
+            if len(calls) - 1 == fail_at:
+                ecls = ex.interp.module("mici.errors").resolve(err, ex.ctx)
+                box["exc"] = ex.call(ecls, ["injected"], {})
+                box["at"] = len(calls)
+                raise PyRaise(box["exc"])
+        for n_ in names:
+            it.call_contracts[f"{cls}.{n_}"] = Native(lambda ex, self_, state, tt, _n=n_: rec(ex, self_, state, tt, _n), n_)
+        tag = P + f"{cls}._step/sub-step-error-propagates"
+        try:
+            try:
+                w.ex.call(w.ex.getattr(integ, "_step"), [st, t], {})
+                raised = None
+            except PyRaise as pr:
+                raised = pr.exc
+        finally:
+            for n_ in names:
+                del it.call_contracts[f"{cls}.{n_}"]
+        if "exc" not in box:
+            return  # fewer sub-step calls than the chosen position: nothing to show on this path
+        ok = raised is box["exc"] and len(calls) == box["at"]
+        detail = "" if ok else (f"{err} raised by sub-step call #{box['at']} ({calls[box['at'] - 1]}) " +
+                                ("was handled inside _step" if raised is None else f"left _step as {exc_name(raised)}" if raised is not box["exc"] else "propagated") +
+                                f"; sub-step calls made: {calls}")
+        ctx.run.ob(tag, core.DISCHARGED if ok else core.FAILED, "pyvc", detail=detail, witness=None if ok else {"class": cls, "error": err, "failing_call": box["at"]},
+                   text="an IntegratorError raised by a sub-step leaves _step unchanged and no further sub-step is attempted (no silent fallback to another map)")
+    it.explore(h, "substep-errors", roots=[[c, e] for c in range(len(cases)) for e in range(len(errs))])
+    for cls, names, _ in cases:
+        run.function(f"mici.integrators.{cls}._step (error propagation)")
+
+
 def lemma_palindrome(run):
     """Lemma `rev`: for group actions phi_k (phi_k(s) o phi_k(-s) = id) composed in a palindromic order with
     palindromic times, running the composition with -t after t is the identity.  Telescoping step, checked in z3
@@ -428,10 +484,14 @@ def run(run_, tier):
     check_leapfrog_pairs(run_, it)
     check_midpoint_pair(run_, it)
     check_constrained_inner(run_, it)
+    check_substep_errors_propagate(run_, it)
     lemma_palindrome(run_)
     # the integrator-level argument treats the system's derivative methods as functions of the state: a method that returns a different value on a
     # second evaluation at the same state (e.g. by accumulating in place into a cached array shared with copies) breaks reversal and writes the input state
     from . import symla_systems
     symla_systems.run_cases(run_, "c05_cases", keep=lambda oid: any(k in oid for k in ("stable-under-repeated-evaluation", "grad-cache-not-corrupted")))
+    # ... and as functions of the state *for the system that is stepping*: the state cache is transparent and keyed per (system object, method)
+    from . import premises
+    premises.cache_protocol(run_)
     run_.extraction_drops.extend(sorted(it.dropped))
     run_.notes.append(f"paths explored: {it.paths}; solver seconds {it.solver_seconds:.2f}")
